@@ -223,7 +223,7 @@ fn main() {
             let refs: Vec<a5sim::scenario::RefEntry> = serde_json::from_str(&std::fs::read_to_string(get(&m, "refs", String::new())).expect("refs")).expect("refs json");
             let g = a5sim::scenario::GenCtx::new(&pool, &refs);
             let vs = get(&m, "seed", 0u64);
-            let sc = a5sim::scenario::generate(&g, a5sim::batch::scenario_seed(vs, get(&m, "index", 0u64)));
+            let sc = a5sim::scenario::generate_at(&g, a5sim::batch::scenario_seed(vs, get(&m, "index", 0u64)), Some(get(&m, "index", 0u64)));
             let f = a5sim::replay::ReplayFile {
                 property: "C13".into(), engine: "H".into(), verif_seed: vs, profile: a5sim::replay::profile_name(),
                 decisions: vec![Vec::new()], scenarios: vec![sc], violation: None, minimised: false, note: "generated".into(), origin: None,
